@@ -17,6 +17,14 @@
         itself over the transaction they end up in (C04 covers a library-signed P2PKH input); the statement
         for ALL inputs of ALL four flows (all_inputs_verify) is decided on every run by the correspondence:
         the real interpreter executes every input of every produced transaction.
+        ADDED (proofs/OrdSignProofs.v): model/Ord.v's abstract FillInput is model/Sign.v's FillInput with an
+        unlocker.Simple ([C20_fill_input_refines]); in the completed listing acceptance every buyer input's
+        ALL|FORKID script is the unlocker's answer on the FINAL transaction ([C20_buyer_inputs_sign_final_tx(_2d)]),
+        likewise the bidder's SINGLE|FORKID inputs in the bid and in the accepted bid
+        ([C20_bidder_inputs_sign_bid_tx(_2d)], [C20_bidder_inputs_sign_final_tx(_2d)]) and the seller's
+        input of a listing made by ListOrdinalForSale ([C20_seller_input_signs_final_tx]); hence signatures over
+        the final digest ([C20_self_signed_is_signature_over_own_digest]) and interpreter acceptance
+        ([C20_listing_buyer_input_accepted], C04_self_signed_input_accepted_forkid), relative to the oracle.
     (2) the seller's output stays at the committed index            — [C20_seller_output_fixed(_2d)];
     (3) the ordinal goes to the buyer under FIFO numbering          — [C20_ordinal_fifo_*];
     (4) the completed transaction pays the quoted fee                — [C20_flow_fee_enough_*] + [C20_estimate_to_final*],
@@ -31,6 +39,7 @@ From GoBT Require Import lib.Bytes lib.VarInt model.Tx gen.Consts spec.FeeSpec m
   spec.OrdSpec model.Ord proofs.OrdProofs proofs.AuditC20.
 From GoBT Require model.Push model.Inscription proofs.InscriptionProofs proofs.RangeProofs spec.PushSpec.
 From GoBT Require lib.Ripemd160 model.ScriptNum model.Interp model.CheckSig proofs.P2PKHProofs proofs.OrdAcceptProofs.
+From GoBT Require model.Sign proofs.SignProofs proofs.OrdSignProofs.
 Import ListNotations.
 Local Open Scope N_scope. Local Open Scope bool_scope.
 
@@ -366,6 +375,128 @@ Theorem C20_bid_2d_sigs_survive : forall signer prevs bid eq P ss A j sc amount,
 Proof. exact bid_2d_sigs_survive. Qed.
 Print Assumptions C20_bid_2d_sigs_survive.
 
+(** * The signing path of C04 under the flows (clause 1 for the buyer's / bidder's OWN inputs)
+
+    [simple_signer key]: the abstract unlocker of model/Ord.v when the bt.Unlocker handed over for input j is an
+    unlocker.Simple around the key [key j] (model/Sign.v [unlocking_script]); [flow_of_sign] keeps the transaction
+    of a successful FillInput and turns every other outcome into [Fail ESign]. *)
+Section SigningPath.
+Import Sign SignProofs OrdSignProofs.
+
+(** model/Ord.v's FillInput IS model/Sign.v's FillInput on every index inside the transaction (the flows pass no
+    other: the loop reads tx.Inputs[j] first, the single calls follow a length check) *)
+Theorem C20_fill_input_refines : forall key t j f, j < N.of_nat (length (tx_ins t)) ->
+  Ord.fill_input (simple_signer key) t j f = flow_of_sign (Sign.fill_input (Some (key j)) t j f).
+Proof. exact fill_input_refines. Qed.
+Print Assumptions C20_fill_input_refines.
+
+(** outside the transaction they differ (Go panics inside Simple.UnlockingScript; the abstract unlocker says "error") *)
+Theorem C20_fill_input_out_of_range : forall key t j f, N.of_nat (length (tx_ins t)) <= j ->
+  Sign.fill_input (Some (key j)) t j f = SgPanic /\ Ord.fill_input (simple_signer key) t j f = Fail ESign.
+Proof. exact fill_input_out_of_range. Qed.
+Print Assumptions C20_fill_input_out_of_range.
+
+(** and [Fail ESign] hides no panic: with a FORKID type (all the flows use: 0 -> 0x41, 0x43, 0xc3) on an index
+    inside the transaction and below 2^31, FillInput returns a transaction or an error *)
+Theorem C20_sign_fill_input_forkid_outcomes : forall s t j f, j < N.of_nat (length (tx_ins t)) -> j < 2147483648 ->
+  default_type f < 256 -> has_forkid (default_type f) = true ->
+  (exists t', Sign.fill_input (Some s) t j f = SgOk t') \/ (exists e, Sign.fill_input (Some s) t j f = SgErr e).
+Proof. exact sign_fill_input_forkid_outcomes. Qed.
+Print Assumptions C20_sign_fill_input_forkid_outcomes.
+
+(** the strengthened loop specification: [sign_loop t us i skip flags = Done t'] changes unlocking scripts only,
+    and the input at the position of the p-th UTXO carries the script the unlocker returned for THAT index and
+    the defaulted flags on a transaction [tm] differing from [t] (and [t']) in unlocking scripts only *)
+Theorem C20_sign_loop_signs : forall signer skip flags us t i t', sign_loop signer t us i skip flags = Done t' ->
+  erase_unlocks t' = erase_unlocks t /\
+  (forall k, (k < N.to_nat (loop_pos skip i))%nat -> nth_error (tx_ins t') k = nth_error (tx_ins t) k) /\
+  nth_error (tx_ins t') (N.to_nat skip) = nth_error (tx_ins t) (N.to_nat skip) /\
+  forall p, (p < length us)%nat ->
+    let j := loop_pos skip (i + N.of_nat p) in
+    exists tm a u, erase_unlocks tm = erase_unlocks t /\ nth_error (tx_ins t) (N.to_nat j) = Some a /\
+      signer tm j (ord_default flags) = Some u /\ nth_error (tx_ins t') (N.to_nat j) = Some (with_unlock a u).
+Proof. exact sign_loop_signs. Qed.
+Print Assumptions C20_sign_loop_signs.
+
+(** AcceptOrdinalSaleListing: in the COMPLETED transaction [A], the unlocking script of every input other than the
+    seller's (input 1) is exactly what unlocker.Simple around that input's key returns when run on [A] itself for
+    that index with SigHashFlags 0 (= ALL|FORKID) - although it was made mid-loop, when later inputs were still
+    unsigned: outputs are complete before the loop starts, later steps only add unlocking scripts, and the FORKID
+    preimage does not read them (C02_forkid_ignores_unlocking_scripts) *)
+Theorem C20_buyer_inputs_sign_final_tx : forall key listed L us buyer dummy chg q A,
+  accept_listing (simple_signer key) listed L us buyer dummy chg q = Done A ->
+  forall j inp, j <> 1%nat -> nth_error (tx_ins A) j = Some inp ->
+    unlocking_script (key (N.of_nat j)) A (N.of_nat j) 0 = SgOk (in_unlock inp).
+Proof. exact listing_buyer_inputs_sign_final_tx. Qed.
+Print Assumptions C20_buyer_inputs_sign_final_tx.
+
+(** AcceptOrdinalSaleListing2Dummies: the same, the seller's input being input 2 *)
+Theorem C20_buyer_inputs_sign_final_tx_2d : forall key listed L us buyer dummy chg q A,
+  accept_listing_2d (simple_signer key) listed L us buyer dummy chg q = Done A ->
+  forall j inp, j <> 2%nat -> nth_error (tx_ins A) j = Some inp ->
+    unlocking_script (key (N.of_nat j)) A (N.of_nat j) 0 = SgOk (in_unlock inp).
+Proof. exact listing_2d_buyer_inputs_sign_final_tx. Qed.
+Print Assumptions C20_buyer_inputs_sign_final_tx_2d.
+
+(** with a go-bk-shaped key, "what unlocker.Simple returns on [A] itself" unfolds (C04_unlocking_script_is_p2pkh_unlock,
+    C04_carried_type_is_digest_type) to: push(sig ++ [type]) push(key), [sig] the key's signature over
+    CalcInputSignatureHash(A, j, type), [type] the defaulted type, which is also the byte opcodeCheckSig reads *)
+Theorem C20_self_signed_is_signature_over_own_digest : forall s A j f inp, f < 256 -> signer_ok s ->
+  unlocking_script s A j f = SgOk (in_unlock inp) ->
+  exists sig h, fst (calc_input_signature_hash A j (default_type f)) = SOk h /\ sg_sign s h = Some sig /\
+    in_unlock inp = P2PKHProofs.p2pkh_unlock sig (default_type f) (sg_pub s) /\
+    carried_signature (in_unlock inp) = Some sig /\ carried_hash_type (in_unlock inp) = Some (default_type f).
+Proof. exact self_signed_is_signature_over_own_digest. Qed.
+Print Assumptions C20_self_signed_is_signature_over_own_digest.
+
+(** MakeBidToBuy1SatOrdinal(2Dummies): in the bid [P] every input but the ordinal placeholder carries the
+    unlocker's answer on [P] itself with SINGLE|FORKID (0x43).  (The flows use no ALL|ANYONECANPAY.) *)
+Theorem C20_bidder_inputs_sign_bid_tx : forall key bid otx ov us buyer dummy chg q dprev dpay P,
+  make_bid (simple_signer key) bid otx ov us buyer dummy chg q dprev dpay = Done P ->
+  forall j inp, j <> 1%nat -> nth_error (tx_ins P) j = Some inp ->
+    unlocking_script (key (N.of_nat j)) P (N.of_nat j) 67 = SgOk (in_unlock inp).
+Proof. exact bid_bidder_inputs_sign_bid_tx. Qed.
+Print Assumptions C20_bidder_inputs_sign_bid_tx.
+Theorem C20_bidder_inputs_sign_bid_tx_2d : forall key bid otx ov us buyer dummy chg q dprev dpay P,
+  make_bid_2d (simple_signer key) bid otx ov us buyer dummy chg q dprev dpay = Done P ->
+  forall j inp, j <> 2%nat -> nth_error (tx_ins P) j = Some inp ->
+    unlocking_script (key (N.of_nat j)) P (N.of_nat j) 67 = SgOk (in_unlock inp).
+Proof. exact bid_2d_bidder_inputs_sign_bid_tx. Qed.
+Print Assumptions C20_bidder_inputs_sign_bid_tx_2d.
+
+(** ... and after AcceptBidToBuy1SatOrdinal(2Dummies) by ANY seller-side unlocker: in the COMPLETED transaction [A]
+    every bidder input still carries the bidder's unlocker's answer on [A] itself - the library's SINGLE|FORKID
+    signature hash of those inputs is unchanged by the acceptance (C20_bid_sigs_survive carried to
+    CalcInputSignatureHash through C02).  Size hypotheses: fewer than 2^31 outputs, 2^32 inputs *)
+Theorem C20_bidder_inputs_sign_final_tx : forall key seller bid otx ov us buyer dummy chg q dprev dpay P ou eq ss A,
+  make_bid (simple_signer key) bid otx ov us buyer dummy chg q dprev dpay = Done P ->
+  accept_bid seller ou bid eq P ss = Done A -> wf_tx P -> bid < two64 ->
+  N.of_nat (length (tx_outs P)) < two31 -> N.of_nat (length (tx_ins P)) < two32 ->
+  forall j inp, j <> 1%nat -> nth_error (tx_ins A) j = Some inp ->
+    unlocking_script (key (N.of_nat j)) A (N.of_nat j) 67 = SgOk (in_unlock inp).
+Proof. exact bid_bidder_inputs_sign_final_tx. Qed.
+Print Assumptions C20_bidder_inputs_sign_final_tx.
+Theorem C20_bidder_inputs_sign_final_tx_2d : forall key seller bid otx ov us buyer dummy chg q dprev dpay P prevs eq ss A,
+  make_bid_2d (simple_signer key) bid otx ov us buyer dummy chg q dprev dpay = Done P ->
+  accept_bid_2d seller prevs bid eq P ss = Done A -> wf_tx P -> bid < two64 ->
+  N.of_nat (length (tx_outs P)) < two31 -> N.of_nat (length (tx_ins P)) < two32 ->
+  forall j inp, j <> 2%nat -> nth_error (tx_ins A) j = Some inp ->
+    unlocking_script (key (N.of_nat j)) A (N.of_nat j) 67 = SgOk (in_unlock inp).
+Proof. exact bid_2d_bidder_inputs_sign_final_tx. Qed.
+Print Assumptions C20_bidder_inputs_sign_final_tx_2d.
+
+(** the remaining input of a listing acceptance: when the listing was made by ListOrdinalForSale with an
+    unlocker.Simple around [sk], the seller's input (input 1 of [A]) carries what that unlocker returns on [A]
+    itself at index 1 with SINGLE|ANYONECANPAY|FORKID (0xc3) - so EVERY input of [A] is covered *)
+Theorem C20_seller_input_signs_final_tx : forall sk buyer_signer ou so listed L us buyer dummy chg q A,
+  list_ordinal (simple_signer (fun _ => sk)) ou so = Done L ->
+  accept_listing buyer_signer listed L us buyer dummy chg q = Done A ->
+  exists seller_in, nth_error (tx_ins A) 1 = Some seller_in /\ tx_ins L = [seller_in] /\
+    unlocking_script sk A 1 195 = SgOk (in_unlock seller_in).
+Proof. exact listing_seller_input_signs_final_tx. Qed.
+Print Assumptions C20_seller_input_signs_final_tx.
+End SigningPath.
+
 (** * Interpreter acceptance of the seller's re-indexed input (clause 1, partial — see the header) *)
 Section Acceptance.
 Import Ripemd160 ScriptNum Interp CheckSig P2PKHProofs.
@@ -423,6 +554,31 @@ Theorem C20_listing_2d_seller_input_accepted_partial : forall signer (orc : sig_
          (mkExecInput unlock lock flags true true 0 1 (Z.of_N (in_seq seller_in)))) = VOk.
 Proof. exact OrdAcceptProofs.listing_2d_seller_input_accepted. Qed.
 Print Assumptions C20_listing_2d_seller_input_accepted_partial.
+(** clause 1 for a buyer's input of a completed listing acceptance, end to end: the interpreter model run on the
+    COMPLETED transaction accepts it ([C20_buyer_inputs_sign_final_tx] + C04_self_signed_input_accepted_forkid).
+    Residual hypotheses: the UTXO's script pays to the key of its unlocker (P2PKH or P2PKH-inscription), the key is
+    go-bk-shaped, FORKID in force, flag sanity, size, push-only envelope body, the oracle hypothesis for the digest
+    of [A] *)
+Theorem C20_listing_buyer_input_accepted : forall (orc : sig_oracle) key listed L us buyer dummy chg q (A : tx)
+    (j : nat) (inp : input) (flags : N) (body : bytes) (insc : bool) (bops : list pop),
+  let s := key (N.of_nat j) in
+  let pk := Sign.sg_pub s in
+  let lock := (p2pkh_lock (hash160 pk) ++ (if insc then inscription_suffix body else []))%list in
+  let c := mkCtx (normalise_flags flags) true (Z.of_N (tx_lock A)) (Z.of_N (tx_version A)) (Z.of_N (in_seq inp)) false in
+  accept_listing (OrdSignProofs.simple_signer key) listed L us buyer dummy chg q = Done A ->
+  j <> 1%nat -> nth_error (tx_ins A) j = Some inp ->
+  wf_tx A -> (N.of_nat j + 1 < two32)%N -> in_script inp = Some lock -> SignProofs.signer_ok s ->
+  has_flag c F_FORKID = true ->
+  (has_flag c F_CLEANSTACK = true -> has_flag c F_BIP16 = true) ->
+  lenZ lock <= max_script_size c ->
+  (insc = true -> parse_ops (length body) false body 1 = Some bops /\ is_push_only bops = true /\
+                  Forall (fun p => lenZ (p_data p) <= max_elem c) bops) ->
+  (forall h, fst (calc_input_signature_hash A (N.of_nat j) 65) = SOk h -> SignProofs.oracle_accepts_signer orc c s h) ->
+  fst (engine_execute (mk_sigops orc (engine_tx A (N.of_nat j) (in_unlock inp) lock (in_sats inp)) (N.of_nat j))
+         (mkExecInput (in_unlock inp) lock flags true true (Z.of_N (tx_lock A)) (Z.of_N (tx_version A))
+                      (Z.of_N (in_seq inp)))) = VOk.
+Proof. exact OrdSignProofs.listing_buyer_input_accepted. Qed.
+Print Assumptions C20_listing_buyer_input_accepted.
 End Acceptance.
 
 (** * Inscriptions *)
